@@ -52,7 +52,7 @@ def run(ctx):
         e2 = guarded('pair_between', rp, lambda: '(pb_model_ok %s %s (%s : list (list (nat * nat))))' % (cnat(a), cnat(b), clist([idxpairs(p) for p in ps])))
         if e2: add('pair_between_model', e2, rp, key=(a, b))
     # pair_within_simultaneously
-    for n in range(4, N(17, 33)):
+    for n in range(4, N(17, 25)):
         lab = list(range(n)); rp = {'call': 'pair_within_simultaneously', 'labels': 'range(%d)' % n}
         ps = guarded('pair_within_simultaneously', rp, lambda: [tuple(p) for p in fp.pair_within_simultaneously(lab)])
         if ps is None: continue
@@ -60,7 +60,7 @@ def run(ctx):
         if e: add('pair_within_simultaneously', e, rp, key=n)
     # longer lists (block sizes like (4,5,5,5), (6,7,7,7) only occur from length 19 on): the same quadruple-coverage
     # property decided by a direct enumeration in the harness (supporting; the Coq checker covers the shorter lists)
-    for n in range(N(17, 33), N(45, 81)):
+    for n in range(N(17, 25), N(45, 81)):
         lab = list(range(n)); rp = {'call': 'pair_within_simultaneously', 'labels': 'range(%d)' % n}
         ps = guarded('pair_within_simultaneously', rp, lambda: [tuple(p) for p in fp.pair_within_simultaneously(lab)])
         if ps is None: continue
